@@ -39,9 +39,10 @@ fn mk_user_func() -> Value {
 
 // see eval_matrix.rs: writing `name` in place makes the niche-encoded kind of the value a constant
 fn mk_builtin() -> Value {
+    let text: &str = "b";
     let mut v = Value::BuiltinFunc{name: String::new(), f: trivial_builtin};
     match &mut v {
-        Value::BuiltinFunc{name, ..} => { *name = String::from("b"); },
+        Value::BuiltinFunc{name, ..} => { *name = String::from(text); },
         _ => unreachable!(),
     }
     v
